@@ -458,6 +458,28 @@ class _FakeRandom:
         w.draws.append((a, b, v))
         return v
 
+    # the other ways of drawing a number are mapped onto the same choice point (a position in the interval), so that a
+    # harmless change of the drawing function stays under the harness' control
+    def _frac(self) -> float:
+        return self.randint(0, 1000) / 1000
+
+    def random(self) -> float:
+        return min(self._frac(), 0.999999)
+
+    def uniform(self, a: float, b: float) -> float:
+        if float(a).is_integer() and float(b).is_integer() and a <= b:
+            return float(self.randint(int(a), int(b)))  # the same choice point as randint(a, b): policies recognise it by its range
+        return a + (b - a) * self._frac()
+
+    def randrange(self, start: int, stop: Optional[int] = None, step: int = 1) -> int:
+        if stop is None:
+            start, stop = 0, start
+        n = (stop - start + step - 1) // step
+        return start + step * self.randint(0, n - 1)
+
+    def choice(self, seq: Any) -> Any:
+        return seq[self.randint(0, len(seq) - 1)]
+
     def __getattr__(self, name: str) -> Any:
         raise HarnessError(f"zeroconf used random.{name}, which the harness does not own")
 
@@ -506,8 +528,15 @@ def install_seams() -> None:
                 new = _FAKE_RANDOM
             elif val is _real_random.randint:
                 new = _FAKE_RANDOM.randint
-            elif any(val is f for f in (_real_random.random, _real_random.uniform, _real_random.choice,
-                                        _real_random.randrange, _real_random.shuffle, _real_random.sample)):
+            elif val is _real_random.random:
+                new = _FAKE_RANDOM.random
+            elif val is _real_random.uniform:
+                new = _FAKE_RANDOM.uniform
+            elif val is _real_random.randrange:
+                new = _FAKE_RANDOM.randrange
+            elif val is _real_random.choice:
+                new = _FAKE_RANDOM.choice
+            elif any(val is f for f in (_real_random.shuffle, _real_random.sample)):
                 raise HarnessError(f"{modname}.{attr} is a random function the harness does not model")
             elif val is real_rcwt:
                 new = _fake_run_coro_with_timeout
